@@ -451,7 +451,7 @@ class BatStream(Stream):
         r = c_result(obs)
         if r is None:
             return f"({c_bat_in(case)}, NoResult, [], [])"     # the model never answers NoResult here: reported as disagreement
-        ups = "[" + "; ".join(f"({clist(s)}, {clist(f)})" for s, f in obs["updates"]) + "]"
+        ups = "[" + "; ".join(f"({clist(s)}, {clist(f)})" for s, f in obs.get("updates", [])) + "]"
         return f"({c_bat_in(case)}, {r}, {c_calls(obs['calls'])}, {ups})"
 
     def show_term(self, case, obs):
@@ -589,3 +589,31 @@ class PVStream(Stream):
             if o not in (0, 2):
                 for new in (0, 2):
                     yield {**case, "out": case["out"][:i] + [new] + case["out"][i + 1:]}
+
+
+class BatAlgStream(BatStream):
+    """Battery path with set-points / remaining power produced by the REAL distribution algorithm
+    (component data and requests drawn by the C01 harness generator), then pushed through the real
+    `_distribute_power` with scripted API outcomes.  The resolved distribution is stored in the case,
+    so a replay does not depend on the generator."""
+    name = "alg_battery"
+
+    def gen(self, rng, tier):
+        try:
+            from harness import dist as D
+            _, Alg, _ = D._alg()
+        except Exception:  # noqa: BLE001 - the C01 harness is another area's file; without it this stream is empty
+            return
+        n = 500 if tier == "quick" else 6000
+        for _ in range(n):
+            dc = D.gen_case(rng)
+            try:
+                res = Alg(dc["exp"]).distribute_power(X(fr(dc["power"])), D.build(dc, X))
+            except Exception:  # noqa: BLE001 - inputs the algorithm rejects never reach _distribute_power
+                continue
+            if not res.distribution:
+                continue
+            m = [[i["id"], sorted(b["id"] for b in g["bats"])] for g in dc["groups"] for i in g["invs"]]
+            dist = [[int(i), jq(v)] for i, v in res.distribution.items()]
+            yield {"req": jq(fr(dc["power"])), "dist": dist, "rem": jq(res.remaining_power), "map": m,
+                   "out": gen_out(rng, len(dist)), "origin": "BatteryDistributionAlgorithm"}
